@@ -351,18 +351,41 @@ theorem readChainedSeqContext3_noPanic (b : Bytes) (pos : Nat) : (read3 b pos).n
   refine bind_noPanic (covSetsLoop_noPanic _ _ _ _ _ _ _ _ (by omega)) (fun r7 _ => ?_)
   exact True.intro
 
-/-- the dispatch of `readGsubSubtable` for lookup type 6 (the three readers of this group; a key
-that wraps to another reader is answered with an error by the model) never panics -/
-theorem readChained_noPanic (b : Bytes) (pos : Nat) : (readChained b pos).noPanic := by
-  unfold readChained
+/-- the dispatch of `readGsubSubtable` for lookup type 6 never panics (the code as it is now and
+the code before the repair of the key collision) -/
+theorem readChainedG_noPanic (fixed : Bool) (b : Bytes) (pos : Nat) : (readChainedG fixed b pos).noPanic := by
+  unfold readChainedG
   refine bind_noPanic (readU16_noPanic _ _ _) (fun format _ => ?_)
   dsimp only
+  split
+  · exact True.intro
   split
   · exact readChainedSeqContext1_noPanic b pos
   split
   · exact readChainedSeqContext2_noPanic b pos
   split
   · exact readChainedSeqContext3_noPanic b pos
-  split <;> exact True.intro
+  · exact True.intro
+
+theorem readChained_noPanic (b : Bytes) (pos : Nat) : (readChained b pos).noPanic :=
+  readChainedG_noPanic true b pos
+
+/-- the repaired dispatcher, in closed form: format words 1, 2, 3 reach the three readers of this
+group, EVERY other format word is refused as invalid — no word reaches a reader outside the group
+any more (the branch `other-reader` of the model is dead) -/
+theorem readChained_eq (b : Bytes) (pos : Nat) :
+    readChained b pos = (readU16 "gsub.go:36#ReadUint16" b pos >>= fun f =>
+      if f = 1 then read1 b pos else if f = 2 then read2 b pos else if f = 3 then read3 b pos
+      else .err "invalid") := by
+  unfold readChained readChainedG
+  rcases readU16 "gsub.go:36#ReadUint16" b pos with f | e | p
+  · rw [ok_bind, ok_bind]
+    dsimp only
+    by_cases h9 : f > 9
+    · rw [if_pos (Or.inr ⟨rfl, h9⟩), if_neg (by omega), if_neg (by omega), if_neg (by omega)]
+    · have : f = 0 ∨ f = 1 ∨ f = 2 ∨ f = 3 ∨ f = 4 ∨ f = 5 ∨ f = 6 ∨ f = 7 ∨ f = 8 ∨ f = 9 := by omega
+      rcases this with rfl | rfl | rfl | rfl | rfl | rfl | rfl | rfl | rfl | rfl <;> rfl
+  · rfl
+  · rfl
 
 end SfntV.Total.ChainCtx
